@@ -364,10 +364,21 @@ def gen_ut(rng):
     cnt = itertools.count()
     # the kind of <state>y is only known through a value of known user type
     ops.append(["call", ["kfirst"], "<func>rhs", [["var", "<t>"]], {"y": ["var", "<state>y"]}])
+    two = rng.random() < 0.4
+    if two:
+        # a second component of ANOTHER user type and right-hand sides that take both components:
+        # ff(t, y, w) returns a 'vt' value, fs(t, y, w) a 'wt' value
+        ops.append(["two-types"])
+        ops.append(["call", ["<state>w"], "<func>fs", [["var", "<t>"]], {"y": ["var", "<state>y"], "w": ["var", "<state>w"]}])
     for _ in range(rng.randint(3, 10)):
         r = rng.random()
         i = next(cnt)
-        if r < 0.2:
+        if two and r < 0.12:
+            v = f"k{i}"
+            ops.append(["call", [v], "<func>ff", [["var", rng.choice(nums)]],
+                        {"y": ["var", rng.choice(uts)], "w": ["var", "<state>w"]}])
+            uts.append(v)
+        elif r < 0.2:
             v = f"k{i}"
             ops.append(["call", [v], "<func>rhs", [["var", rng.choice(nums)]], {"y": ["var", rng.choice(uts)]}])
             uts.append(v)
@@ -417,6 +428,10 @@ def check_ut(ops, rec):
     if cstate:
         ops = ops[1:]
         rec.count("usertype_programs_with_complex_state")
+    two = ["two-types"] in ops
+    if two:
+        ops = [op for op in ops if op != ["two-types"]]
+        rec.count("usertype_programs_with_two_user_types")
     with CodeBuilder("main") as cb:
         for op in ops:
             if op[0] == "assign":
@@ -426,15 +441,27 @@ def check_ut(ops, rec):
     dag = DAGCode.from_phases_list([cb.as_execution_phase("main")], "main")
     freg = register_ode_rhs(base_function_registry, "vt", identifier="<func>rhs", input_names=("y",))
 
+    freg = register_ode_rhs(freg, "vt", identifier="<func>ff", input_type_ids=("vt", "wt"), input_names=("y", "w"))
+    freg = register_ode_rhs(freg, "wt", identifier="<func>fs", input_type_ids=("vt", "wt"), input_names=("y", "w"))
+
     def rhs(t, y):
         return tagged(-2.0 * np.asarray(y) + t, "vt")
+
+    def ff(t, y, w):
+        return tagged(-1.0 * np.asarray(y) + t + np.sum(np.asarray(w)), "vt")
+
+    def fs(t, y, w):
+        return tagged(0.5 * np.asarray(w) + t + np.asarray(y)[0], "wt")
     script = {"t0": 0.5, "dt0": 0.25, "state": {}, "initial": "main"}
     y0 = [1.0 + 0.5j, -2.0, 0.5j] if cstate else [1.0, -2.0, 0.5]
-    start = [("main", {"<t>": 0.5, "<dt>": 0.25, "<state>y": tagged(y0, "vt")})]
+    st0 = {"<t>": 0.5, "<dt>": 0.25, "<state>y": tagged(y0, "vt")}
+    if two:
+        st0["<state>w"] = tagged([0.5 + 1j, 1.0] if cstate else [0.5, 1.0], "wt")
+    start = [("main", st0)]
     rec.count("usertype_programs")
     try:
         with case_alarm(30):
-            return check_dag(dag, script, {"<func>rhs": rhs}, freg, rec, wit, start)
+            return check_dag(dag, script, {"<func>rhs": rhs, "<func>ff": ff, "<func>fs": fs}, freg, rec, wit, start)
     except CaseTimeout:
         rec.timeout()
         return None
